@@ -27,6 +27,9 @@ CHECKS = {
  "C13": dict(level="exploration", technique="bounded-exhaustive input enumeration on the real tsm1 block encoders/decoders (2 encoders x 2 decoders) and WAL segment reader (every cut offset)",
    text="Per field type every value sequence of length <=4 (5 thorough) over boundary alphabets (2^60 simple8b limit, zig-zag extremes, -0/denormal/extreme floats, empty/64KB strings) x timestamp start/delta alphabets (incl. unsorted/wrapping), plus run families at every length 1..1100 (2100 thorough), each encoded by the iterator encoder and the batch encoder and decoded by DecodeBlock and Decode*ArrayBlock: bit-identical. Every sequence of <=2 (3 thorough) WAL entries of 9 kinds is written with the real segment writer and cut at every byte offset: the reader returns exactly the entries wholly before the cut, unchanged (also after the reader moved on), without panic.",
    note="small-scope alphabets placed on the constants the encoders branch on; NaN/Inf are outside (refused by parser and encoder).", ref="§6 C13"),
+ "C04": dict(level="model_checking", technique="explicit-state BFS over queue operations on the real hh queue vs a list model (every state validated by draining a reopened copy) + stateless preemption/delay-bounded schedule exploration of appenders x consumer x Close on the real queue under a controlled scheduler (synctest bubble, sync shim)",
+   text="(a) BFS (depth 5, 7 thorough) over Append at sizes around the segment limit, a 12-segment burst, Peek, Consume, SetMaxSegmentSize up/down, Close+Open, purge with and without aged files on the real queue with 64-byte segments; after every transition Empty() <=> nothing pending and a reopened copy drains to exactly the accepted, un-consumed blocks in order. (c) k in {2,3} appenders (+consumer) racing Close with preemption bound 2 (3 thorough), and 11-12 appenders (the buffered path above ten writers in flight) with delay bound 1 (2 thorough), every sync operation of services/hh a scheduling point: after quiescence (and, without Close, while the queue is still open) every append that returned nil is in the queue exactly once, preloaded blocks keep their order, the consumer saw the oldest block. The crash-point part (b) of DESIGN is not built yet.",
+   note="tmpfs files (fsync is a no-op: crash clauses are not decided here); 64-byte segments stand for 10 MB; data races outside a cooperative scheduler; harness built with go1.26.8 testing/synctest.", ref="§6 C04"),
 }
 NA_REASON = "check not built yet in this round (planned in DESIGN.md §6); nothing is claimed for it"
 m = {
